@@ -457,7 +457,7 @@ Next == \/ ChooseBucket
         \/ FramesA
         \/ \E inc, trim, iok \in BOOLEAN : GetTranslationA(inc, trim, iok)
         \/ \E strict \in BOOLEAN : StopOpsA(strict)
-        \/ \E allow_rc, trim \in BOOLEAN, frame \in 0..3 : SelectA(allow_rc, frame, trim)
+        \/ \E allow_rc, trim \in BOOLEAN, frame \in 0..3 : (frame = 0 \/ trim) /\ SelectA(allow_rc, frame, trim)
         \/ \E inc, trim \in BOOLEAN : PairA(inc, trim)
         \/ PairStopA
         \/ SymA
